@@ -3,6 +3,7 @@ package rules
 import (
 	"fmt"
 	"go/types"
+	"sort"
 
 	"golang.org/x/tools/go/ssa"
 
@@ -60,23 +61,82 @@ func (c *Ctx) ruleR04a(rule string) {
 		c.R.Fail("coverage-lost", rule, "parsley.Parse", "-", "-", "parsley.Parse not found")
 		return
 	}
-	type verdict struct {
-		bad  string
-		n    int
-		user int
+	res := map[*ssa.Return]*r04verdict{}
+	if !c.nodeXorErr(fn, nil, res, 0) {
+		c.R.Undecided(rule, "parsley.Parse path budget", "parsley.Parse", c.P.Pos(fn.Pos()), "too many paths to enumerate")
 	}
-	res := map[*ssa.Return]*verdict{}
-	complete := walkPaths(fn, isReturn, func(p *pathState, in ssa.Instruction) {
+	var rets []*ssa.Return
+	for r := range res {
+		rets = append(rets, r)
+	}
+	sort.Slice(rets, func(i, j int) bool { return rets[i].Pos() < rets[j].Pos() })
+	for _, r := range ssax.Returns(fn) {
+		if res[r] == nil {
+			c.R.Examined(1)
+		}
+	}
+	for _, r := range rets {
+		v := res[r]
+		where := c.name(r.Parent())
+		site := where + " return @" + c.P.InstrPos(r)
+		switch {
+		case v.delegated:
+			c.R.Examined(1)
+		case v.bad != "":
+			c.R.Violation(rule, "parsley.Parse returns (node, nil) with node unchecked", where, c.P.InstrPos(r), v.bad)
+		default:
+			note := fmt.Sprintf("%d path(s): exactly one of node/error", v.n)
+			if v.user > 0 {
+				note += fmt.Sprintf("; %d path(s) return the result of the user's transformer (A-user)", v.user)
+				c.R.Exempt("node returned by Transform in parsley.Parse", "produced by user-supplied transformers (A-user: a transformer returns a node or an error)")
+			}
+			c.R.Hold(rule, site, note)
+		}
+	}
+}
+
+type r04verdict struct {
+	bad       string
+	n         int
+	user      int
+	delegated bool // the return hands on the pair another library function returns (judged there)
+}
+
+// nodeXorErr enumerates the paths of fn — a function returning (node, error) — and judges every return: exactly one
+// of the two is non-nil. A return handing on both results of a library helper is judged inside that helper, with
+// what is known about the arguments.
+func (c *Ctx) nodeXorErr(fn *ssa.Function, init map[ssa.Value]nilState, res map[*ssa.Return]*r04verdict, depth int) bool {
+	return walkPathsInit(fn, init, isReturn, func(p *pathState, in ssa.Instruction) {
 		r := in.(*ssa.Return)
 		if len(r.Results) != 2 {
 			return
 		}
 		v := res[r]
 		if v == nil {
-			v = &verdict{}
+			v = &r04verdict{}
 			res[r] = v
 		}
 		v.n++
+		// return h(...)
+		e0, ok0 := r.Results[0].(*ssa.Extract)
+		e1, ok1 := r.Results[1].(*ssa.Extract)
+		if ok0 && ok1 && e0.Tuple == e1.Tuple && e0.Index == 0 && e1.Index == 1 && depth < 3 {
+			if cl, ok := e0.Tuple.(*ssa.Call); ok {
+				if h := cl.Call.StaticCallee(); h != nil && !cl.Call.IsInvoke() && c.P.InLib(h) && len(h.Blocks) > 0 && h.Signature.Results().Len() == 2 {
+					hinit := map[ssa.Value]nilState{}
+					for i, prm := range h.Params {
+						if i < len(cl.Call.Args) {
+							if st := p.eval(cl.Call.Args[i]); st != nsUnknown {
+								hinit[prm] = st
+							}
+						}
+					}
+					v.delegated = true
+					c.nodeXorErr(h, hinit, res, depth+1)
+					return
+				}
+			}
+		}
 		node, err := p.eval(r.Results[0]), p.eval(r.Results[1])
 		switch {
 		case err == nsNil:
@@ -99,26 +159,6 @@ func (c *Ctx) ruleR04a(rule string) {
 			v.bad = fmt.Sprintf("a path returns node=%s error=%s: neither 'node with nil error' nor 'nil node with error' is established", node, err)
 		}
 	})
-	if !complete {
-		c.R.Undecided(rule, "parsley.Parse path budget", "parsley.Parse", c.P.Pos(fn.Pos()), "too many paths to enumerate")
-	}
-	for _, r := range ssax.Returns(fn) {
-		v := res[r]
-		site := "parsley.Parse return @" + c.P.InstrPos(r)
-		switch {
-		case v == nil:
-			c.R.Examined(1)
-		case v.bad != "":
-			c.R.Violation(rule, "parsley.Parse returns (node, nil) with node unchecked", "parsley.Parse", c.P.InstrPos(r), v.bad)
-		default:
-			note := fmt.Sprintf("%d path(s): exactly one of node/error", v.n)
-			if v.user > 0 {
-				note += fmt.Sprintf("; %d path(s) return the result of the user's transformer (A-user)", v.user)
-				c.R.Exempt("node returned by Transform in parsley.Parse", "produced by user-supplied transformers (A-user: a transformer returns a node or an error)")
-			}
-			c.R.Hold(rule, site, note)
-		}
-	}
 }
 
 func (c *Ctx) ruleR04b(rule string) {
